@@ -69,6 +69,7 @@ structure WS where
   toggle : Nat                     -- 0 or TOGGLE_BIT
   expHeader : Option Bytes         -- 4 header bytes of the pending expedited request
   done : Bool
+  pending : Bytes := []            -- `_exp_pending`: data of an expedited download accepted but not yet sent
 deriving Repr
 
 def muxB (idx sub : Nat) : Bytes := leBytes 2 idx ++ [sub % 256]
@@ -111,19 +112,26 @@ def reachesSize (size : Option Nat) (n : Nat) : Bool :=
   | some sz => decide (n ≥ sz)
   | none => false
 
+/-- what the offer that completes an expedited download contributes: all of it when nothing was
+    collected before (a single full offer, as ever), else only what is still missing -/
+def expTake (w : WS) (b : Bytes) : Bytes :=
+  if w.pending.isEmpty then b else b.take (w.size.getD 0 - w.pending.length)
+
 /-- one raw `write(b)`: new state and the number of bytes accepted -/
 def wsWrite {σ} (P : Peer σ) (c : Chan σ) (w : WS) (b : Bytes) : Chan σ × Except CErr (WS × Nat) :=
   if w.done then (c, .error .runtime)
   else match w.expHeader with
     | some hdr =>
-      if b.length < w.size.getD 0 then (c, .ok (w, 0))          -- not enough data yet
-      else if b.length > 4 then (c, .error .assertion)
+      if b.length < w.size.getD 0 - w.pending.length then         -- not all data yet: collected
+        (c, .ok ({ w with pending := w.pending ++ b, pos := w.pos + b.length }, b.length))
+      else if w.pending.isEmpty && decide (b.length > 4) then (c, .error .assertion)
       else
-        match requestResponse P c (hdr ++ padTo 4 b) with
+        match requestResponse P c (hdr ++ padTo 4 (w.pending ++ expTake w b)) with
         | (c', .error e) => (c', .error e)
         | (c', .ok r) =>
           if r.headD 0 &&& 0xE0 ≠ RESPONSE_DOWNLOAD then (c', .error .comm)
-          else (c', .ok ({ w with done := true, pos := w.pos + b.length }, b.length))
+          else (c', .ok ({ w with done := true, pos := w.pos + (expTake w b).length, pending := [] },
+                         (expTake w b).length))
     | none =>
       let sent := min b.length 7
       let last := reachesSize w.size (w.pos + sent)
@@ -135,13 +143,15 @@ def wsWrite {σ} (P : Peer σ) (c : Chan σ) (w : WS) (b : Bytes) : Chan σ × E
         if r.headD 0 &&& 0xE0 ≠ RESPONSE_SEGMENT_DOWNLOAD then (c', .error .comm)
         else (c', .ok ({ w1 with pos := w.pos + sent }, sent))
 
-/-- `close()`: an unfinished segmented download is ended by an empty last segment -/
+/-- `close()`: an unfinished segmented download is ended by an empty last segment; an expedited one
+    that collected data without ever sending it raises -/
 def wsClose {σ} (P : Peer σ) (c : Chan σ) (w : WS) : Chan σ × Except CErr WS :=
   if !w.done && w.expHeader.isNone then
     let req : Bytes := (REQUEST_SEGMENT_DOWNLOAD ||| NO_MORE_DATA ||| w.toggle ||| (7 <<< 1)) :: List.replicate 7 0
     match requestResponse P c req with
     | (c', .error e) => (c', .error e)
     | (c', .ok _) => (c', .ok { w with done := true })
+  else if !w.done && !w.pending.isEmpty then (c, .error .runtime)   -- collected data never sent: RuntimeError
   else (c, .ok w)
 
 /-- a *caller* of the raw stream: offers a prefix of the unsent remainder of the given sizes
@@ -182,7 +192,7 @@ def download {σ} (P : Peer σ) (c : Chan σ) (idx sub : Nat) (payload : Bytes) 
 def wsAfterFail (w : WS) (b : Bytes) (e : CErr) : WS :=
   if e = .runtime ∨ e = .assertion then w
   else match w.expHeader with
-    | some _ => w
+    | some _ => { w with pending := [] }         -- what was collected went into the request that failed
     | none =>
       { w with toggle := w.toggle ^^^ TOGGLE_BIT, done := reachesSize w.size (w.pos + min b.length 7) }
 
